@@ -271,3 +271,66 @@ func (store *HStore) VerifStateDump() string {
 	}
 	return sb.String()
 }
+
+// VerifLeafRoundTrip enumerates, for all eight depth+height classes, key hashes
+// with extreme and per-nibble patterns through SliceHeader.Set/Get/Iter/Remove
+// with a synthetic node path, and checks that Iter returns all 64 bits.
+func VerifLeafRoundTrip() (cases int, bad []string) {
+	saveConf := Conf
+	defer func() { Conf = saveConf }()
+	hashes := []uint64{0, 1, 1<<32 - 1, 1 << 32, 0x8000000000000000, 0xffffffffffffffff, 0x7fffffffffffffff, 0x0123456789abcdef, 0xfedcba9876543210}
+	for n := 0; n < 16; n++ {
+		var h uint64
+		for i := 0; i < 16; i++ {
+			h = h<<4 | uint64((n+i)&0xf)
+		}
+		hashes = append(hashes, h, uint64(n)<<60, uint64(n)<<28|uint64(n)<<32)
+	}
+	for _, nb := range []int{1, 16, 256} {
+		depth := map[int]int{1: 0, 16: 1, 256: 2}[nb]
+		for height := 1; depth+height <= 8; height++ {
+			Conf = &HStoreConfig{}
+			Conf.InitDefault()
+			Conf.NumBucket = nb
+			Conf.TreeHeight = height
+			Conf.InitTree()
+			for _, h := range hashes {
+				cases++
+				var sh SliceHeader
+				var buf [16]int
+				path := ParsePathUint64(h, buf[:16])[:depth+height-1]
+				ni := &NodeInfo{path: path}
+				ki := NewKeyInfoFromBytes([]byte("k"), h, false)
+				// a second item first, so that the leaf has two entries
+				other := h ^ 0x5 // same path (low bits differ)
+				ki2 := NewKeyInfoFromBytes([]byte("k2"), other, false)
+				req2 := &HTreeReq{ki: ki2}
+				req2.item = HTreeItem{other, Position{1, 512}, 7, 9}
+				sh.Set(req2)
+				req := &HTreeReq{ki: ki}
+				req.item = HTreeItem{h, Position{3, 256}, 5, 0x1234}
+				sh.Set(req)
+				var g HTreeReq
+				g.ki = ki
+				if !sh.Get(&g) || g.item.Ver != 5 || g.item.Vhash != 0x1234 || g.item.Pos != (Position{3, 256}) {
+					bad = append(bad, fmt.Sprintf("get nb=%d height=%d hash=%016x got %+v", nb, height, h, g.item))
+				}
+				found := map[uint64]int32{}
+				sh.Iter(func(kh uint64, it *HTreeItem) { found[kh] = it.Ver }, ni)
+				if found[h] != 5 || found[other] != 7 || len(found) != 2 {
+					bad = append(bad, fmt.Sprintf("iter nb=%d height=%d hash=%016x got %x", nb, height, h, found))
+				}
+				if _, removed := sh.Remove(ki, Position{-1, 0}); !removed {
+					bad = append(bad, fmt.Sprintf("remove nb=%d height=%d hash=%016x", nb, height, h))
+				}
+				found = map[uint64]int32{}
+				sh.Iter(func(kh uint64, it *HTreeItem) { found[kh] = it.Ver }, ni)
+				if len(found) != 1 || found[other] != 7 {
+					bad = append(bad, fmt.Sprintf("iter-after-remove nb=%d height=%d hash=%016x got %x", nb, height, h, found))
+				}
+				sh.free()
+			}
+		}
+	}
+	return
+}
